@@ -536,7 +536,7 @@ def run_case(ctx, case):
 
 def make_cases(chk):
     rng = random.Random(f"C04:{chk.seed}:{chk.tier}")
-    n = chk.pick(300, 2000)
+    n = chk.pick(300, 6000)
     cases = []
     for i in range(n):
         tree = rng.random() < 0.4
@@ -566,7 +566,7 @@ def main(chk):
         "lists/typedefs, typedef names, friends, static globals, function-like macros, forcetype'd published members, "
         "element records (without accessors) of members whose type is private",
     ]
-    chk.min_conclusive = chk.pick(200, 1400)
+    chk.min_conclusive = chk.pick(200, 4000)
     chk.run_cases(__name__, make_cases(chk))
     chk.extra["entities_generated"] = chk.counters.get("entities", 0)
     # Appendix D: one row per gate -- how many classified names (must / must-not / unspecified) carried each tag
